@@ -8,6 +8,7 @@ import (
 	"path/filepath"
 	"sort"
 	"strings"
+	"time"
 
 	"golang.org/x/tools/go/packages"
 	"golang.org/x/tools/go/ssa"
@@ -92,6 +93,27 @@ func main() {
 
 func run(args []string) int {
 	switch args[0] {
+	case "rac":
+		// debugging aid: run the replay search on functions of the current tree and print what it finds
+		p, err := loadProgram()
+		if err != nil {
+			fmt.Fprintln(os.Stderr, err)
+			return 2
+		}
+		for _, name := range args[1:] {
+			t0 := time.Now()
+			r := racFunction(p, name)
+			fmt.Printf("%.1fs ", time.Since(t0).Seconds())
+			fmt.Printf("%s: %d executions, %d legal, %d refutations; %s\n", name, r.Tries, r.Legal, len(r.Refuted), r.Note)
+			seen := map[string]bool{}
+			for _, x := range r.Refuted {
+				if !seen[x.Clause] {
+					seen[x.Clause] = true
+					fmt.Printf("   REFUTED %s %v (try %d) %s\n", x.Clause, x.Tags, x.Try, x.Panic)
+				}
+			}
+		}
+		return 0
 	case "verify", "dump":
 		p, err := loadProgram()
 		if err != nil {
